@@ -106,4 +106,16 @@ PROPS = {
         trusted=['T3 as C01; pagesize() == 4096 (sysconf, x86_64)', 'T4 as C01',
                  'kernel side: process_init_reply() reads flags2 only if FUSE_INIT_EXT is set in flags (fs/fuse/inode.c)'],
     ),
+    'C08': dict(
+        vx_units=['inodes'], kx=[],
+        design_ref='DESIGN.md section 5, C08',
+        not_covered=[
+            'the global accounting "references = entries returned - forgets": do_lookup and every entry-returning passthrough operation (lookup, create, mkdir, mknod, symlink, link, readdirplus) are chains of syscalls and are not extracted',
+            'behaviour of a valid inode number after rename / unlink (kernel semantics), release of descriptors (Drop)',
+            'termination of the compare-exchange retry loop; interleavings with concurrent lookups (C09)',
+            'allocate_inode (AtomicU64::fetch_add on &self, UniqueInodeGenerator)',
+        ],
+        trusted=['T3 BTreeMap as a sequential map; AtomicU64 as an opaque cell whose loads are unconstrained and whose compare_exchange is capability-guarded',
+                 'T8 the caller holds the write lock on the inode map (forget_one takes &mut InodeStore)'],
+    ),
 }
